@@ -435,6 +435,13 @@ impl<RW: QueueRW<T>, T> MultiQueue<RW, T> {
         }
     }
 
+    /// The slot tag a reader at stream position `count` has to wait on
+    #[inline(always)]
+    fn wait_cell(&self, count: usize) -> &AtomicUsize {
+        let index = count & (self.capacity as usize - 1);
+        unsafe { &(*self.data.add(index)).wraps }
+    }
+
     fn reload_tail_multi(&self, tail_cache: usize, count: usize) -> usize {
         if let Some(max_diff_from_head) = self.tail.get_max_diff(count) {
             let current_tail = CountedIndex::get_previous(count, max_diff_from_head);
@@ -527,11 +534,10 @@ impl<RW: QueueRW<T>, T> InnerRecv<RW, T> {
             match self.queue.try_recv(&self.reader) {
                 Ok(v) => return Ok(v),
                 Err((_, TryRecvError::Disconnected)) => return Err(RecvError),
-                Err((pt, TryRecvError::Empty)) => {
+                Err((_, TryRecvError::Empty)) => {
                     let count = self.reader.load_count(Relaxed);
-                    unsafe {
-                        self.queue.waiter.wait(count, &*pt, &self.queue.writers);
-                    }
+                    let cell = self.queue.wait_cell(count);
+                    self.queue.waiter.wait(count, cell, &self.queue.writers);
                 }
             }
         }
@@ -558,12 +564,11 @@ impl<RW: QueueRW<T>, T> InnerRecv<RW, T> {
             match self.queue.try_recv_view(op, &self.reader) {
                 Ok(v) => return Ok(v),
                 Err((o, _, TryRecvError::Disconnected)) => return Err((o, RecvError)),
-                Err((o, pt, TryRecvError::Empty)) => {
+                Err((o, _, TryRecvError::Empty)) => {
                     op = o;
                     let count = self.reader.load_count(Relaxed);
-                    unsafe {
-                        self.queue.waiter.wait(count, &*pt, &self.queue.writers);
-                    }
+                    let cell = self.queue.wait_cell(count);
+                    self.queue.waiter.wait(count, cell, &self.queue.writers);
                 }
             }
         }
@@ -803,9 +808,10 @@ impl<RW: QueueRW<T>, T> Stream for &FutInnerRecv<RW, T> {
                     return Ok(Async::Ready(Some(msg)));
                 }
                 Err((_, TryRecvError::Disconnected)) => return Ok(Async::Ready(None)),
-                Err((pt, _)) => {
+                Err((_, _)) => {
                     let count = self.reader.reader.load_count(Relaxed);
-                    if unsafe { self.wait.fut_wait(count, &*pt, &self.reader.queue.writers) } {
+                    let cell = self.reader.queue.wait_cell(count);
+                    if self.wait.fut_wait(count, cell, &self.reader.queue.writers) {
                         return Ok(Async::NotReady);
                     }
                 }
@@ -841,9 +847,10 @@ impl<RW: QueueRW<T>, R, F: for<'r> FnMut(&T) -> R, T> Stream for FutInnerUniRecv
                     return Ok(Async::Ready(Some(msg)));
                 }
                 Err((_, _, TryRecvError::Disconnected)) => return Ok(Async::Ready(None)),
-                Err((_, pt, _)) => {
+                Err((_, _, _)) => {
                     let count = self.reader.reader.load_count(Relaxed);
-                    if unsafe { self.wait.fut_wait(count, &*pt, &self.reader.queue.writers) } {
+                    let cell = self.reader.queue.wait_cell(count);
+                    if self.wait.fut_wait(count, cell, &self.reader.queue.writers) {
                         return Ok(Async::NotReady);
                     }
                 }
